@@ -24,6 +24,14 @@ fn gen_archive(rng: &mut rand_chacha::ChaCha8Rng, cfg: &Cfg, allow_dups: bool) -
         if e.kind == Kind::Symlink && rng.gen_bool(0.3) { e.link = format!("{}ü{}", "seg/".repeat(255), "/tail".repeat(90)); }
         specs.push(e);
     }
+    // every third archive certainly holds a symbolic link whose target is longer than 1 KiB
+    if rng.gen_bool(0.34) {
+        let mut e = gen::gen_entry(rng, 0);
+        e.kind = Kind::Symlink; e.content = vec![]; e.writes = vec![]; e.name = "dir2/long-link".into();
+        e.link = format!("{}ü{}", "seg/".repeat(255), "/tail".repeat(90));
+        let at = rng.gen_range(0..=specs.len());
+        specs.insert(at, e);
+    }
     let mut a = Archive::write_header(Vec::new()).unwrap();
     let mut i = 0;
     let mut layout = vec![];
